@@ -101,6 +101,8 @@ type vfRule struct {
 	J       int    `json:"j,omitempty"`    // how many times
 	Type    int    `json:"type,omitempty"` // chunk type for "type"
 	UntilMs int    `json:"until,omitempty"`
+	Msg     int    `json:"msg,omitempty"`  // "msg": drop packets carrying a chunk of message id Msg (J times; 0 = every time)
+	Frag    int    `json:"frag,omitempty"` // "msg": 0 = any fragment, k>0 = only fragment index k-1
 	cnt     int
 }
 
@@ -166,6 +168,7 @@ type vfWriteRec struct {
 	RelT   int
 	RelV   int
 	Done   bool
+	data   []byte
 }
 
 type vfCall struct {
@@ -286,6 +289,13 @@ func (s *vfSim) installFaults() {
 				}
 			case "type":
 				hit = ev.P.has(uint8(r.Type))
+			case "msg":
+				for k := range ev.P.Chunks {
+					c := &ev.P.Chunks[k]
+					if (c.Type == wtDATA || c.Type == wtIDATA) && s.chunkOfMsg(ev.Side, c, r.Msg, r.Frag) {
+						hit = true
+					}
+				}
 			}
 			if hit {
 				r.cnt++
@@ -294,6 +304,36 @@ func (s *vfSim) installFaults() {
 		}
 		return fate
 	}
+}
+
+// chunkOfMsg reports whether a DATA/I-DATA chunk sent by side carries (fragment frag-1 of,
+// or with frag==0 any part of) message id. Called from the fate function (net.mu held).
+func (s *vfSim) chunkOfMsg(side int, c *wChunk, id int, frag int) bool {
+	s.mu.Lock()
+	var w *vfWriteRec
+	if id >= 0 && id < len(s.writes) {
+		w = s.writes[id]
+	}
+	s.mu.Unlock()
+	if w == nil || w.Side != side || w.SID != c.SID || len(c.Data) == 0 || len(c.Data) > len(w.data) {
+		return false
+	}
+	il := s.sc.Cfg[0].IL && s.sc.Cfg[1].IL
+	mp := vfMaxPayload(&s.sc.Cfg[side], il)
+	if mp <= 0 {
+		return false
+	}
+	for k := 0; k*mp < len(w.data); k++ {
+		if frag > 0 && k != frag-1 {
+			continue
+		}
+		o := k * mp
+		e := o + len(c.Data)
+		if e <= len(w.data) && string(w.data[o:e]) == string(c.Data) && (e == len(w.data) || len(c.Data) == mp) {
+			return true
+		}
+	}
+	return false
 }
 
 // ---- handshake ----
@@ -601,6 +641,9 @@ func (s *vfSim) doWrite(side int, sid uint16, size int, ppi uint32) *vfWriteRec 
 	w.Gen, w.Unord, w.RelT, w.RelV = h.gen, h.unord, h.relT, h.relV
 	msg := vfPayload(id, size)
 	w.Hash = vfHash64(msg)
+	s.mu.Lock()
+	w.data = msg
+	s.mu.Unlock()
 	do := func() {
 		n, err := h.s.WriteSCTP(msg, PayloadProtocolIdentifier(ppi))
 		s.mu.Lock()
